@@ -58,14 +58,14 @@ func textDerivation(v ssa.Value) (fromQuery bool, transforms []string) {
 }
 
 func checkC37(c *Ctx, r *Report) {
-	r.Explanation = "Decides structural necessary conditions of 'the SQL proxy forwards only queries whose topics are all allowed': (R1) in handleConn the text given to authorizeQuery and to cacheKey derives from the received Query message's String only through whitespace trimming (strings.TrimSpace) — a slice, truncation helper or concatenation on the way is a violation — and the message handed to frontend.Send is the received message itself; (R2) frontend.Send of a Query message is reached only with decision.allowed true, where the decision is either the cached one for this key or the fresh result of authorizeQuery; a denied query gets an error reply; (R3) authorizeQuery parses with the same kafsql.Parse the upstream server uses, denies when parsing fails, checks every element of queryTopics against the ACL (any denied topic returns false from inside the scan, true is returned only after the scan), and queryTopics lists the join topic and looks inside EXPLAIN; inside authorizeQuery the text handed to Parse is the argument after TrimSpace/TrimSuffix only. R1 exposed the 512-byte truncation repaired by 7eada42. Whether the upstream executes the same grammar is covered only as 'same Parse function'."
+	r.Explanation = "Decides structural necessary conditions of 'the SQL proxy forwards only queries whose topics are all allowed': (R1) in handleConn the text given to authorizeQuery and to cacheKey derives from the received Query message's String only through whitespace trimming (strings.TrimSpace) — a slice, truncation helper or concatenation on the way is a violation — and the message handed to frontend.Send is the received message itself; cacheKey returns its argument after strings.Fields/Join/ToLower/TrimSpace only (the parser folds case and splits on whitespace itself), never a cut, hash or constant, so two texts the parser distinguishes never share a cached decision; (R2) frontend.Send of a Query message is reached only with decision.allowed true, where the decision is either the cached one for this key or the fresh result of authorizeQuery; a denied query gets an error reply; (R3) authorizeQuery parses with the same kafsql.Parse the upstream server uses, denies when parsing fails, checks every element of queryTopics against the ACL (any denied topic returns false from inside the scan, true is returned only after the scan), and queryTopics lists the join topic and looks inside EXPLAIN; inside authorizeQuery the text handed to Parse is the argument after TrimSpace/TrimSuffix only. R1 exposed the 512-byte truncation repaired by 7eada42. Whether the upstream executes the same grammar is covered only as 'same Parse function'."
 	r.NotCovered = "semantic agreement between the parser and the executor about which topics a parsed query reads; cache staleness after an ACL change (the ACL is fixed per connection)"
 	m, err := c.Mod("sql")
 	if err != nil {
 		r.unresolved("C37.load", "sql module", err.Error())
 		return
 	}
-	r.rule("C37.R1", "authorization text and cache key are the forwarded text modulo whitespace trimming; the forwarded message is the received one", 3)
+	r.rule("C37.R1", "authorization text and cache key are the forwarded text modulo whitespace trimming; the forwarded message is the received one", 4)
 	r.rule("C37.R2", "a Query message is forwarded only under decision.allowed", 2)
 	r.rule("C37.R3", "authorizeQuery: same parser, deny on parse error, every topic checked, join and explain topics included", 6)
 
@@ -99,6 +99,63 @@ func checkC37(c *Ctx, r *Report) {
 			default:
 				r.ok("C37.R1", key, m.Pos(call.Pos()), "through "+strings.Join(tr, ", "))
 			}
+		}
+	}
+	// the cache key itself: distinct texts that the parser can tell apart get distinct keys — the key
+	// is the argument after case folding and whitespace normalisation only (the parser folds case and
+	// splits on whitespace itself); a cut, hash or constant would let one text inherit another's decision
+	if ck := needFn(m, r, "C37.R1", pkgSQLProxy, "cacheKey"); ck != nil {
+		okT := map[string]bool{"strings.ToLower": true, "strings.Fields": true, "strings.Join": true, "strings.TrimSpace": true}
+		var bad []string
+		fromParam := false
+		seen := map[ssa.Value]bool{}
+		var walk func(v ssa.Value, inCall bool)
+		walk = func(v ssa.Value, inCall bool) {
+			if seen[v] {
+				return
+			}
+			seen[v] = true
+			switch x := v.(type) {
+			case *ssa.Parameter:
+				fromParam = true
+			case *ssa.Const:
+				if !inCall {
+					bad = append(bad, "constant "+x.String())
+				}
+			case *ssa.Call:
+				n := calleeName(&x.Call)
+				if !okT[n] {
+					bad = append(bad, n)
+				}
+				for _, a := range x.Call.Args {
+					walk(a, true)
+				}
+			case *ssa.Slice:
+				bad = append(bad, "a cut at "+m.Pos(x.Pos()))
+				walk(x.X, false)
+			case *ssa.Phi:
+				for _, e := range x.Edges {
+					walk(e, false)
+				}
+			case *ssa.BinOp:
+				bad = append(bad, "operator "+x.Op.String())
+			default:
+				bad = append(bad, describe(v))
+			}
+		}
+		for _, b := range ck.Blocks {
+			if ret, ok := b.Instrs[len(b.Instrs)-1].(*ssa.Return); ok {
+				walk(ret.Results[0], false)
+			}
+		}
+		key := "cacheKey: the key is the query text modulo case and whitespace only"
+		switch {
+		case len(bad) > 0:
+			r.viol("C37.R1", key, m.Pos(ck.Pos()), "the key is also shaped by "+strings.Join(bad, ", ")+": two different forwarded texts can share one cached decision")
+		case !fromParam:
+			r.viol("C37.R1", key, m.Pos(ck.Pos()), "the key does not derive from the query text")
+		default:
+			r.ok("C37.R1", key, m.Pos(ck.Pos()), "")
 		}
 	}
 	// forwarded message identity + allowed guard
